@@ -288,6 +288,9 @@ pub fn drive(a: &Args) -> i32 {
         //   "collide" : six rotations in a burst with no checkpoint and no restart in between (rotated-file names
         //               carry the wall-clock second), observed at the rotations and by a clean restart at the end
         let collide = long && (seg / long_every.max(1)) % 2 == 1;
+        // every other burst segment restarts the process (cleanly) in the middle of the burst: the rotations after the
+        // restart still fall into the seconds whose names the burst has already used
+        let collide_restart = collide && (seg / long_every.max(1)) % 4 == 3;
         let nops: u64 = if collide { rng.gen_range(6010..6080) } else if long { rng.gen_range(2050..3100) } else { rng.gen_range(12..40) };
         store_no += 1;
         let mut live = tmp.join(format!("live{store_no}"));
@@ -322,7 +325,7 @@ pub fn drive(a: &Args) -> i32 {
                 // file and one right after each rotation (with the clock advanced in between, since
                 // snapshot and rotated-file names carry the wall-clock second), then a clean restart
                 let x = rng.gen_range(0..1000);
-                if collide { post_rot = 0; if i == nops { 99 } else if x < 700 { 0 } else { 70 } }
+                if collide { post_rot = 0; if i == nops || (collide_restart && i == 3500) { 99 } else if x < 700 { 0 } else { 70 } }
                 else if post_rot == 1 && nrot_seen % 2 == 0 { post_rot = 2; clock_step = true; 92 }
                 else if post_rot == 1 { post_rot = 3; if x < 700 { 0 } else { 70 } } // every other rotation: no checkpoint, the rotated file stays
                 else if post_rot >= 2 && post_rot < 5 { post_rot += 1; if x < 700 { 0 } else { 70 } }
